@@ -33,6 +33,7 @@ ASSUMED = [
     {"what": "format!(\"{i}\") / format!(\"{f:?}\") are the uninterpreted int_text / float_text (std formatting round-trips)", "keys": ["spec fn int_text", "spec fn float_text", "fn fmt_int", "fn fmt_float"]},
     {"what": "date / time / interval literals are delegated to translate_other_literal (not under contract)", "keys": ["fn translate_other_literal"]},
     {"what": "str::parse::<i64> / ::<f64> are the uninterpreted partial functions as_i64 / as_f64 of the digit text", "keys": ["spec fn as_i64", "spec fn as_f64", "fn parse_i64", "fn parse_f64"]},
+    {"what": "f64::is_finite is is_finite(), uninterpreted; chumsky's error value is opaque", "keys": ["spec fn is_finite", "fn f64_is_finite", "struct LexErr", "fn lex_error"]},
     {"what": "Context::dialect handler methods are unknown to the proof (any call on it is outside the dialect -> unconstrained)", "keys": ["struct Handler", "struct Context"]},
     {"what": "i64::to_string is int_text; i64::leading_zeros is its std meaning for the one question asked (fewer than 32 leading zeros iff negative or >= 2^32); "
              "sqlparser's Display prints Value::Number(text, long) as the text followed by `L` iff long (read in sqlparser 0.60 value.rs)",
@@ -59,6 +60,10 @@ pub uninterp spec fn float_text(f: f64) -> Seq<char>;
 #[verifier::external_body] pub fn fmt_float(f: f64) -> (r: String) ensures r@ == float_text(f), { unimplemented!() }
 pub uninterp spec fn as_i64(s: Seq<char>) -> Option<i64>;
 pub uninterp spec fn as_f64(s: Seq<char>) -> Option<f64>;
+pub uninterp spec fn is_finite(f: f64) -> bool;
+#[verifier::external_body] pub fn f64_is_finite(f: f64) -> (r: bool) ensures r == is_finite(f), { unimplemented!() }
+#[verifier::external_body] pub struct LexErr { _p: u8 }
+#[verifier::external_body] pub fn lex_error() -> LexErr { unimplemented!() }
 #[verifier::external_body]
 pub fn parse_i64(s: &String) -> (r: Result<i64, OpaqueT>) ensures match as_i64(s@) { Some(v) => r == Ok::<i64, OpaqueT>(v), None => r is Err }, { unimplemented!() }
 #[verifier::external_body]
@@ -152,17 +157,35 @@ def build(X):
     body = m.group(1)
     num.rewrites.append({"rule": "slice", "what": "statements after `let num_str = ..collect::<String>();` of the closure in number() wrapped as "
                          "fn number_literal_slice(num_str, frac_part, exp_part) -> Literal"})
-    body = re.sub(r"\b(\w+)\.parse::<(i64|f64)>\(\)", r"parse_\2(&\1)", body)
+    body = re.sub(r"\b(\w+)\s*\.parse::<(i64|f64)>\(\)", r"parse_\2(&\1)", body)
     num.rewrites.append({"rule": "R5", "what": "`s.parse::<i64>()` / `::<f64>()` -> parse_i64 / parse_f64"})
-    num.text = ("pub fn number_literal_slice(num_str: String, frac_part: String, exp_part: String) -> (r: Literal)\n"
+    whole_number_fn = num.text
+    num.text = body
+    num.desugar_result_ctor_chains()
+    body = num.text
+    num.text = whole_number_fn
+    fallible = re.search(r"\.try_map\(\|\(\(int_part, frac_part\), exp_part\), \w+\|", num.text) is not None
+    if fallible:
+        # the closure of `.try_map(|.., span| ..)` returns Result<Literal, _>: a literal it cannot represent is rejected
+        body = re.sub(r"\b(\w+)\.is_finite\(\)", r"f64_is_finite(\1)", body)
+        body = re.sub(r"Simple::new\([^()]*\)", "lex_error()", body)
+        num.rewrites.append({"rule": "R5", "what": "`f.is_finite()` -> f64_is_finite(f); `Simple::new(..)` -> lex_error()"})
+        ret, val, ok = "Result<Literal, LexErr>", "r->Ok_0", "r is Ok && "
+        fin = " && is_finite(as_f64(num_str@)->0)"
+        extra = ("        // .. a text whose f64 is not finite (beyond the range of f64) is rejected\n"
+                 "        (as_i64(num_str@) is None && as_f64(num_str@) is Some && !is_finite(as_f64(num_str@)->0)) ==> r is Err, // @LN2\n")
+    else:
+        ret, val, ok, fin, extra = "Literal", "r", "", "", ""
+    num.text = ("pub fn number_literal_slice(num_str: String, frac_part: String, exp_part: String%s) -> (r: %s)\n"
                 "    ensures\n"
                 "        // C08: the digits denote the i64 they spell when they fit an i64 ..\n"
-                "        as_i64(num_str@) is Some ==> r == Literal::Integer(as_i64(num_str@)->0), // @LN1\n"
+                "        as_i64(num_str@) is Some ==> (%s%s == Literal::Integer(as_i64(num_str@)->0)), // @LN1\n"
                 "        // .. otherwise the f64 they spell (magnitudes beyond i64, fractions, exponents) ..\n"
-                "        (as_i64(num_str@) is None && as_f64(num_str@) is Some) ==> r == Literal::Float(as_f64(num_str@)->0), // @LN2\n"
-                "        // .. and the 0 fallback only for text that is neither\n"
-                "        (as_i64(num_str@) is Some || as_f64(num_str@) is Some) ==> !(r == Literal::Integer(0) && as_i64(num_str@) != Some(0i64)), // @LN3\n"
-                "{\n" + body + "\n}\n")
+                "        (as_i64(num_str@) is None && as_f64(num_str@) is Some%s) ==> (%s%s == Literal::Float(as_f64(num_str@)->0)), // @LN2\n"
+                "%s"
+                "        // .. and a 0 fallback only for text that is neither\n"
+                "        (as_i64(num_str@) is Some || as_f64(num_str@) is Some) ==> !(%s%s == Literal::Integer(0) && as_i64(num_str@) != Some(0i64)), // @LN3\n"
+                "{\n" % (", span: OpaqueT" if fallible else "", ret, ok, val, fin, ok, val, extra, ok, val) + body + "\n}\n")
     num.shim_str_predicates()
     num.eta_expand_constructors()
     # ---- expr_of_i64
@@ -220,13 +243,32 @@ def _try(items):
     return rec
 
 
+# number spellings and the value SQLite must see
+_NUMBERS = [("12", 12), ("12_000", 12000), ("9223372036854775807", 9223372036854775807), ("1.5", 1.5), ("1e3", 1000.0), ("2.5e-3", 0.0025), ("12_000.5", 12000.5),
+            ("9223372036854775808", 9.223372036854775808e18), ("18446744073709551615", 1.8446744073709551615e19), ("340282366920938463463374607431768211456", 3.4028236692093846e38)]
+
+
+def _try_num(items):
+    r = _try(items)
+    r["obligation"] = "literals.LN1"
+    r["replay_kind"] = "numbers"
+    return r
+
+
 def sweep():
     out = [_try([it]) for it in _STRINGS]
     out += [_try([a, ('"b c"', "b c")]) for a in _STRINGS]
+    out += [_try_num([it]) for it in _NUMBERS]
     return out
 
 
 def replay(failure):
+    if failure.get("obligation", "").split(".")[-1].startswith("LN"):
+        for it in _NUMBERS:
+            r = _try_num([it])
+            if r["failing"]:
+                return r
+        return {"failing": False}
     for r in sweep():
         if r["failing"]:
             return r
@@ -234,4 +276,6 @@ def replay(failure):
 
 
 def rerun(doc):
+    if doc.get("replay_kind") == "numbers":
+        return _try_num([tuple(x) for x in doc["items"]])
     return _try([tuple(x) for x in doc["items"]])
